@@ -466,4 +466,28 @@ def sameNormalFormB (fuel : Nat) (q q' : Q) : Bool :=
   let b := (simplify fuel [] 0 (preSimp q')).1
   !hasBang a && !hasBang b && resolve [] a == resolve [] b
 
+/-! ### global names: what the translator resolves outside the frame stack -/
+
+mutual
+/-- Some free name satisfying `g` is READ in the (de Bruijn form of the) query: it reaches the translator's table of
+global names (`resolve_id` falling through to `get_toplevel_ns`).  An occurrence bound by a lambda parameter of the
+same spelling is an index here and does not count. -/
+def readsGlobal (g : String → Bool) : DB → Bool
+  | .bvar _ => false
+  | .fvar x => g x
+  | .lit _ => false
+  | .lam _ b => readsGlobal g b
+  | .app f as => readsGlobal g f || readsGlobalL g as
+  | .node _ ks => readsGlobalL g ks
+def readsGlobalL (g : String → Bool) : List DB → Bool
+  | [] => false
+  | d :: ds => readsGlobal g d || readsGlobalL g ds
+end
+
+/-- the query (as written, from the empty stack) reads one of the listed names as a free name -/
+def readsAnyB (names : List String) (q : Q) : Bool := readsGlobal (fun x => names.contains x) (resolve [] q)
+
+/-- some lambda parameter of the query is spelled like one of the listed names -/
+def binderAmongB (names : List String) (q : Q) : Bool := (boundNames q).any (fun x => names.contains x)
+
 end FaxVerif.C08
